@@ -28,6 +28,7 @@ import (
 	"github.com/AdguardTeam/AdGuardHome/internal/querylog"
 	"github.com/AdguardTeam/AdGuardHome/internal/stats"
 	"github.com/AdguardTeam/AdGuardHome/internal/vutil"
+	"github.com/AdguardTeam/AdGuardHome/internal/whois"
 	"github.com/AdguardTeam/golibs/logutil/slogutil"
 	"github.com/miekg/dns"
 	"go.etcd.io/bbolt"
@@ -56,13 +57,14 @@ func (c08Checker) IsBlockedClient(_ netip.Addr, _ string) (bool, string) { retur
 // c08FixDefault tells whether /repo carries fixes/c08/zoned_client_stats.patch
 // (shouldCountClient looks clients up with FindLoose).  The harness reports it
 // with every reset line and the driver runs the matching model variant
-// (Conf.fixZone).  VERIF_C08_FIX=0/1 overrides it for scratch trees.
-const c08FixDefault = false
+// (Conf.fixZone).  VERIF_C08_FIX=0/1 overrides it for scratch trees (e.g. with
+// the repair reverted: VERIF_C08_FIX=0).
+const c08FixDefault = true
 
-// c08ZonedDefault turns on persistent clients configured with zoned addresses
-// (fe80::1%eth0).  The unrepaired tree violates C08 for them, so it is off until
-// the repair is applied.  VERIF_C08_ZONED=0/1 overrides it.
-const c08ZonedDefault = false
+// c08Zoned turns on persistent clients configured with zoned addresses
+// (fe80::1%eth0) and link-local peers.  Before the repair the tree violated C08
+// for them (fixes/c08/README.txt).
+const c08Zoned = true
 
 func c08EnvBool(name string, def bool) bool {
 	switch os.Getenv(name) {
@@ -89,6 +91,11 @@ type c08Ctx struct {
 	// rotated tells that querylog.json.1 exists (rotate is driven only once a
 	// block, so that no record is dropped by a second rename).
 	rotated bool
+	// blocked is the disallowed-clients list of the block (access settings).
+	blocked []string
+	// peers are the real peer addresses of the block's queries (unmapped), for
+	// the catch-all leak scan of the log API's answer.
+	peers map[netip.Addr]bool
 }
 
 var c08 *c08Ctx
@@ -216,8 +223,16 @@ func c08Reset(f []string) []string {
 		dhcp.macs[a] = net.HardwareAddr(vutil.Unhex(l[1]))
 	}
 
-	c := &c08Ctx{dir: c08TempDir(), refuseAny: refuseAny, dhcp: dhcp, unit: 480000}
+	c := &c08Ctx{dir: c08TempDir(), refuseAny: refuseAny, dhcp: dhcp, unit: 480000, peers: map[netip.Addr]bool{}}
 	c08 = c
+	// Optional trailing fields: the fix flag (read by the driver only), then the
+	// disallowed clients as typed identifiers.
+	if i+1 < len(f) {
+		i++
+		for _, id := range c08List(f, &i, 3) {
+			c.blocked = append(c.blocked, c08IDString(id[0], id[1], id[2]))
+		}
+	}
 
 	return c.start(objs, anon, qlogOn, statsOn, ignQ, ignS)
 }
@@ -312,6 +327,12 @@ func (c *c08Ctx) start(objs []*clientObject, anon, qlogOn, statsOn bool, ignQ, i
 	if err != nil {
 		panic(err)
 	}
+	if err = dnsforward.VerifC08SetAccess(c.srv, c.blocked); err != nil {
+		panic(err)
+	}
+	// As initDNSServer does: the DNS server answers the finder's question
+	// whether a client is disallowed.
+	c.clients.clientChecker = c.srv
 
 	return []string{"ok"}
 }
@@ -549,6 +570,104 @@ func c08Has(f []string) []string {
 	return []string{vutil.B(eng.Has(aghnet.NormalizeDomain(host)))}
 }
 
+// c08AddrField canonicalises a string of the API answer that may be an address:
+// i.<hex> for an address, n.<hex>.<bits> for a prefix, s.<hex> otherwise.
+func c08AddrField(v string) string {
+	if a, err := netip.ParseAddr(v); err == nil {
+		return "i." + vutil.Hex(string(a.AsSlice()))
+	}
+	if p, err := netip.ParsePrefix(v); err == nil {
+		return "n." + vutil.Hex(string(p.Addr().AsSlice())) + "." + vutil.Itoa(p.Bits())
+	}
+
+	return "s." + vutil.Hex(v)
+}
+
+func c08IsAddrChar(b byte) bool {
+	return b == '.' || b == ':' || (b >= '0' && b <= '9') || (b >= 'a' && b <= 'f') || (b >= 'A' && b <= 'F')
+}
+
+// c08Mentions reports whether text contains needle as a whole address token.
+func c08Mentions(text, needle string) bool {
+	for from := 0; ; {
+		j := strings.Index(text[from:], needle)
+		if j < 0 {
+			return false
+		}
+		start, end := from+j, from+j+len(needle)
+		if (start == 0 || !c08IsAddrChar(text[start-1])) && (end == len(text) || !c08IsAddrChar(text[end])) {
+			return true
+		}
+		from = start + 1
+	}
+}
+
+// c08Leaks is the catch-all clause: with anonymisation on, does the raw JSON of
+// one returned record contain a textual form of an un-anonymised peer address
+// of this block?
+func c08Leaks(raw string) bool {
+	for a := range c08.peers {
+		m := net.IP(a.AsSlice())
+		querylog.AnonymizeIP(m)
+		if masked, _ := netip.AddrFromSlice(m); masked.Unmap() == a {
+			continue
+		}
+		forms := []string{a.String()}
+		if a.Is6() {
+			forms = append(forms, a.StringExpanded())
+		} else {
+			forms = append(forms, "::ffff:"+a.String())
+		}
+		for _, fm := range forms {
+			if c08Mentions(raw, fm) {
+				return true
+			}
+		}
+	}
+
+	return false
+}
+
+// c08Reported renders one record of the log API's answer: name, client,
+// client_id, client_info (name, whois.orgname, disallowed, disallowed_rule) or
+// "-" when absent, and the leak flag.
+func c08Reported(raw json.RawMessage, anon bool) string {
+	var d struct {
+		Client     string `json:"client"`
+		ClientID   string `json:"client_id"`
+		ClientInfo *struct {
+			WHOIS          map[string]string `json:"whois"`
+			Name           string            `json:"name"`
+			DisallowedRule string            `json:"disallowed_rule"`
+			Disallowed     bool              `json:"disallowed"`
+		} `json:"client_info"`
+		Question struct {
+			Name string `json:"name"`
+		} `json:"question"`
+	}
+	if err := json.Unmarshal(raw, &d); err != nil {
+		return "badentry." + vutil.Hex(err.Error())
+	}
+	ip := "bad" + vutil.Hex(d.Client)
+	if a, err := netip.ParseAddr(d.Client); err == nil {
+		ip = vutil.Hex(string(a.AsSlice()))
+	}
+	info := "-"
+	if d.ClientInfo != nil {
+		other := ""
+		for k, v := range d.ClientInfo.WHOIS {
+			if k != "orgname" {
+				other += k + "=" + v + ";"
+			}
+		}
+		info = vutil.Hex(d.ClientInfo.Name) + "," + vutil.Hex(d.ClientInfo.WHOIS["orgname"]+other) + "," +
+			vutil.B(d.ClientInfo.Disallowed) + "," + c08AddrField(d.ClientInfo.DisallowedRule)
+	}
+	leak := anon && c08Leaks(string(raw))
+
+	return vutil.Hex(d.Question.Name) + ":" + ip + ":" + vutil.Hex(d.ClientID) + ":" + info + ":" + vutil.B(leak)
+}
+
 func c08Run(f []string) []string {
 	switch f[0] {
 	case "C08.reset":
@@ -568,6 +687,7 @@ func c08Run(f []string) []string {
 			panic("bad client address")
 		}
 		cid := vutil.Unhex(f[4])
+		c08.peers[addr.Unmap()] = true
 		if len(f) > 5 && addr.Is6() {
 			// An IPv6 zone of the peer address (link-local clients have one).
 			addr = addr.WithZone(vutil.Unhex(f[5]))
@@ -613,6 +733,30 @@ func c08Run(f []string) []string {
 		}
 
 		return []string{"ok"}
+	case "C08.edit":
+		// An edit that adds one identifier to a client, through Storage.Update as
+		// POST /control/clients/update does it.  A rejected edit (the identifier
+		// belongs to another client) must leave the storage as it was.
+		name := vutil.Unhex(f[1])
+		p, ok := c08.clients.storage.FindByName(name)
+		if !ok {
+			return []string{"noclient"}
+		}
+		ids := append(p.IDs(), c08IDString(f[2], f[3], f[4]))
+		p.IPs, p.Subnets, p.MACs, p.ClientIDs = nil, nil, nil, nil
+		if err := p.SetIDs(ids); err != nil {
+			return []string{"err:" + vutil.Hex(err.Error())}
+		}
+		p.UID = client.MustNewUID()
+		if err := c08.clients.storage.Update(context.Background(), name, p); err != nil {
+			if strings.Contains(err.Error(), "another client") {
+				return []string{"clash"}
+			}
+
+			return []string{"err:" + vutil.Hex(err.Error())}
+		}
+
+		return []string{"ok"}
 	case "C08.rmclient":
 		if !c08.clients.storage.RemoveByName(context.Background(), vutil.Unhex(f[1])) {
 			return []string{"noclient"}
@@ -643,30 +787,37 @@ func c08Run(f []string) []string {
 		c08.rotated = true
 
 		return append([]string{"ok"}, c08File()...)
+	case "C08.runtime":
+		// A runtime record for the address: rDNS host name and/or WHOIS data, the
+		// way the rDNS and WHOIS processors report them.
+		addr, ok := netip.AddrFromSlice([]byte(vutil.Unhex(f[1])))
+		if !ok {
+			panic("bad runtime address")
+		}
+		host, org := vutil.Unhex(f[2]), vutil.Unhex(f[3])
+		var wi *whois.Info
+		if org != "" {
+			wi = &whois.Info{Orgname: org}
+		}
+		c08.clients.UpdateAddress(context.Background(), addr, host, wi)
+
+		return []string{"ok"}
 	case "C08.search":
 		code, body := c08HTTP(http.MethodGet, "/control/querylog?limit=100000&offset=0", "")
 		if code != http.StatusOK {
 			return c08Status(code)
 		}
 		var resp struct {
-			Data []struct {
-				Client   string `json:"client"`
-				ClientID string `json:"client_id"`
-				Question struct {
-					Name string `json:"name"`
-				} `json:"question"`
-			} `json:"data"`
+			Data []json.RawMessage `json:"data"`
 		}
 		if err := json.Unmarshal(body, &resp); err != nil {
 			return []string{"badjson:" + vutil.Hex(err.Error())}
 		}
+		qc := querylog.Config{}
+		c08.qlog.WriteDiskConfig(&qc)
 		var items []string
-		for _, d := range resp.Data {
-			ip := "bad" + vutil.Hex(d.Client)
-			if a, err := netip.ParseAddr(d.Client); err == nil {
-				ip = vutil.Hex(string(a.AsSlice()))
-			}
-			items = append(items, vutil.Hex(d.Question.Name)+":"+ip+":"+vutil.Hex(d.ClientID))
+		for _, raw := range resp.Data {
+			items = append(items, c08Reported(raw, qc.AnonymizeClientIP))
 		}
 
 		return c08WithCount("R", items)
@@ -932,7 +1083,7 @@ func c08EmitStrings(out []string, l []string) []string {
 func c08Gen(r *rand.Rand, emit vutil.Emit) {
 	blocks := vutil.N(300)
 	fix := c08EnvBool("VERIF_C08_FIX", c08FixDefault)
-	zoned := c08EnvBool("VERIF_C08_ZONED", c08ZonedDefault)
+	zoned := c08Zoned
 	for b := 0; b < blocks; b++ {
 		anon := r.IntN(2) == 0
 		refuseAny := r.IntN(2) == 0
@@ -955,6 +1106,7 @@ func c08Gen(r *rand.Rand, emit vutil.Emit) {
 		// zones in different clients is the indeterminate case of FindLoose.
 		zoneOf := map[string]string{}
 		var names []string
+		var allIDs []c08ID
 		f = append(f, vutil.Itoa(nC))
 		for j := 0; j < nC; j++ {
 			name := fmt.Sprintf("c%d", j)
@@ -988,6 +1140,7 @@ func c08Gen(r *rand.Rand, emit vutil.Emit) {
 				ids = append(ids, c08ID{kind: "c", raw: fmt.Sprintf("only-%d", j)})
 			}
 			f = append(f, vutil.Itoa(len(ids)))
+			allIDs = append(allIDs, ids...)
 			for _, id := range ids {
 				third := vutil.Itoa(id.bits)
 				if id.kind == "z" {
@@ -1013,12 +1166,34 @@ func c08Gen(r *rand.Rand, emit vutil.Emit) {
 			f = append(f, vutil.Hex(a), vutil.Hex(vutil.Pick(r, c08MACs)))
 		}
 		f = append(f, vutil.B(fix))
+
+		// Disallowed clients (access settings): exact addresses incl. masked
+		// forms, CIDRs, ClientIDs.
+		nB := 0
+		if r.IntN(2) == 0 {
+			nB = 1 + r.IntN(3)
+		}
+		f = append(f, vutil.Itoa(nB))
+		for j := 0; j < nB; j++ {
+			var id c08ID
+			switch r.IntN(6) {
+			case 0, 1:
+				id = c08ID{kind: "i", raw: vutil.Pick(r, c08V4)}
+			case 2:
+				id = c08ID{kind: "i", raw: vutil.Pick(r, c08V6s)}
+			case 3, 4:
+				id = vutil.Pick(r, c08Prefixes())
+			default:
+				id = c08ID{kind: "c", raw: vutil.Pick(r, c08OwnCIDs)}
+			}
+			f = append(f, id.kind, vutil.Hex(id.raw), vutil.Itoa(id.bits))
+		}
 		emit(append([]string{"C08.reset"}, f...)...)
 
 		nOps := 8 + r.IntN(30)
 		for k := 0; k < nOps; k++ {
 			switch x := r.IntN(100); {
-			case x < 62:
+			case x < 59:
 				qt := dns.TypeA
 				switch r.IntN(8) {
 				case 0:
@@ -1041,6 +1216,20 @@ func c08Gen(r *rand.Rand, emit vutil.Emit) {
 					zone = vutil.Pick(r, []string{"eth0", "wlan0", "eth0", "wlan0", ""})
 				}
 				emit("C08.query", vutil.Hex(c08GenQName(r)), vutil.Itoa(int(qt)), vutil.Hex(addr), vutil.Hex(cid), vutil.Hex(zone))
+			case x < 62:
+				// a runtime record (rDNS name and/or WHOIS) for an address of the pool
+				a := vutil.Pick(r, c08V4)
+				switch r.IntN(4) {
+				case 0:
+					a = vutil.Pick(r, c08V6s)
+				case 1:
+					a = c08Addr(r)
+					if len(a) == 16 && strings.HasPrefix(a, c08In6("")) {
+						a = a[12:]
+					}
+				}
+				emit("C08.runtime", vutil.Hex(a), vutil.Hex(vutil.Pick(r, []string{"host-a.lan", "printer", "", "nas.local"})),
+					vutil.Hex(vutil.Pick(r, []string{"", "ExampleOrg", ""})))
 			case x < 70:
 				emit("C08.flush")
 			case x < 72:
@@ -1058,7 +1247,7 @@ func c08Gen(r *rand.Rand, emit vutil.Emit) {
 			case x < 84:
 				g := []string{"C08.statsconf", vutil.B(r.IntN(10) != 0)}
 				emit(c08EmitStrings(g, c08GenRules(r))...)
-			case x < 89:
+			case x < 88:
 				name := "c9"
 				if len(names) > 0 && r.IntN(10) != 0 {
 					name = vutil.Pick(r, names)
@@ -1068,6 +1257,19 @@ func c08Gen(r *rand.Rand, emit vutil.Emit) {
 				name := "c9"
 				if len(names) > 0 {
 					name = vutil.Pick(r, names)
+				}
+				if r.IntN(3) != 0 {
+					// an edit adding an identifier: one of another client (rejected), or any
+					id := c08GenID(r)
+					if len(allIDs) > 0 && r.IntN(2) == 0 {
+						id = vutil.Pick(r, allIDs)
+					}
+					if id.kind == "z" {
+						id = c08ID{kind: "c", raw: "edited"}
+					}
+					emit("C08.edit", vutil.Hex(name), id.kind, vutil.Hex(id.raw), vutil.Itoa(id.bits))
+
+					break
 				}
 				emit("C08.rmclient", vutil.Hex(name))
 			case x < 95:
